@@ -194,3 +194,40 @@ func VerifTLS13ExportKeyingMaterial(id uint16, masterSecret []byte, transcript [
 	c := cipherSuiteTLS13ByID(id)
 	return c.exportKeyingMaterial(masterSecret, verifKDFTranscript(c, transcript, false))(label, context, length)
 }
+
+// ---- stateful objects: creation separated from use
+
+// VerifTLS13NewTranscript returns a fresh transcript hash of the suite (c.hash.New()).
+func VerifTLS13NewTranscript(id uint16) hash.Hash { return cipherSuiteTLS13ByID(id).hash.New() }
+
+// VerifTLS13NewExporter wraps exportKeyingMaterial(masterSecret, transcript) and returns the closure.
+// The slice and the hash are passed on as given (no copy), the way the handshake passes
+// hs.masterSecret and hs.transcript; the caller may keep writing to the hash afterwards.
+func VerifTLS13NewExporter(id uint16, masterSecret []byte, transcript hash.Hash) func(label string, context []byte, length int) ([]byte, error) {
+	return cipherSuiteTLS13ByID(id).exportKeyingMaterial(masterSecret, transcript)
+}
+
+// VerifNewEKM wraps ekmFromMasterSecret and returns the closure; the slices are passed on as given.
+func VerifNewEKM(version uint16, s VerifKDFSuite, masterSecret, clientRandom, serverRandom []byte) func(label string, context []byte, length int) ([]byte, error) {
+	return ekmFromMasterSecret(version, verifKDFSuitePtr(s), masterSecret, clientRandom, serverRandom)
+}
+
+// VerifFinishedHash is a live finishedHash object.
+type VerifFinishedHash struct{ h finishedHash }
+
+// VerifNewFinishedHash wraps newFinishedHash.
+func VerifNewFinishedHash(version uint16, s VerifKDFSuite) *VerifFinishedHash {
+	return &VerifFinishedHash{h: newFinishedHash(version, verifKDFSuitePtr(s))}
+}
+
+// Write wraps (*finishedHash).Write.
+func (f *VerifFinishedHash) Write(msg []byte) { f.h.Write(msg) }
+
+// Sum wraps finishedHash.Sum.
+func (f *VerifFinishedHash) Sum() []byte { return f.h.Sum() }
+
+// ClientSum wraps finishedHash.clientSum.
+func (f *VerifFinishedHash) ClientSum(masterSecret []byte) []byte { return f.h.clientSum(masterSecret) }
+
+// ServerSum wraps finishedHash.serverSum.
+func (f *VerifFinishedHash) ServerSum(masterSecret []byte) []byte { return f.h.serverSum(masterSecret) }
